@@ -184,6 +184,19 @@ func genPins(r *fw.Rand, n int, universe int, allowExpired bool) []*api.Pin {
 		seen[p.Cid.KeyString()] = true
 		p.UserAllocations = nil
 		p.PinUpdate = cid.Undef
+		// the parts of a sharded add are entries like any other: shards (and, when somebody
+		// gave it factors, the cluster DAG) are held by allocated peers and are re-homed too
+		switch r.Intn(8) {
+		case 0:
+			p.Type, p.MaxDepth, p.Mode = api.ShardType, api.PinDepth(r.Range(1, 2)), api.PinModeRecursive
+			if r.Bool() {
+				ref := gen.Cid(2900+i, 1)
+				p.Reference = &ref
+			}
+		case 1:
+			ref := gen.Cid(2950+i, 1)
+			p.Type, p.MaxDepth, p.Mode, p.Reference = api.ClusterDAGType, 0, api.PinModeDirect, &ref
+		}
 		if p.ReplicationFactorMin == -1 {
 			p.Allocations = nil
 		} else if len(p.Allocations) > p.ReplicationFactorMax {
@@ -194,7 +207,8 @@ func genPins(r *fw.Rand, n int, universe int, allowExpired bool) []*api.Pin {
 		case 0:
 			p.ExpireAt = time.Unix(time.Now().Add(time.Hour).Unix(), 0)
 		case 1:
-			if allowExpired {
+			// (parts of a sharded add expire with their root, never on their own: Unpin refuses them)
+			if allowExpired && p.Type == api.DataType {
 				p.ExpireAt = time.Unix(time.Now().Add(-time.Hour).Unix(), 0)
 			}
 		}
